@@ -14,9 +14,19 @@
      calls lg       the callbacks invoked, in order (log entries ECall); ESpawn N child rc = a callback called tdma_schedule(N, child) and got rc;
                     EReset n = a callback called tdma_sched_reset() and n items were stored afterwards
      spawn_phase rcf st xs   the callbacks xs invoked one after the other on the state their predecessors left (final state, log)
-     lift_x / lift_obs       an execute result / observation of the model without scheduler-using callbacks, read as one of the re-entrant model. *)
+     lift_x / lift_obs       an execute result / observation of the model without scheduler-using callbacks, read as one of the re-entrant model.
+   GSM-time one-shot events (theorems c08_gsm_*, Model/SchedGsmtime.v = sched_gsmtime.c, Proofs/SchedGsmtimeP.v):
+     gstate = (g_act: pending events front to back, each (slot, si = item-set array, fn, p3); g_inact: free slot indices front to back)
+     gs_ok gs       g_act sorted by fn (ascending, not strictly) and map e_slot g_act ++ g_inact is a permutation of the slots 0..15
+     gop            GT o (an operation of the TDMA scheduler) | GReq si fn p3 | GExec fn | GReset;  g_run = history of both schedulers
+     gwalk tgt l    the `if (fn == tgt) {hand over} if (fn > tgt) break;` walk of sched_gsmtime_execute alone: (list afterwards, events handed over)
+     gexec_target fn = (fn + 2) mod 2^32 (uint32 arithmetic of `fn + SCHEDULE_AHEAD`);  gexec_offset = 1 = SCHEDULE_AHEAD - SCHEDULE_LATENCY
+     gs_step / gs_run   the event scheduler alone (it never reads the TDMA scheduler): state, and per execute (fn, events handed over)
+     expand gs ops  what the TDMA scheduler sees: every GExec replaced by OSet 1 si p3 for each event it hands over, in order
+     hand_over off ts evs   tdma_schedule_set(off, si, p3) for each event in order; qlog obs = events handed over per execute, from the observations
+     frames n fn    n frame interrupts [tdma execute; sched_gsmtime_execute(fn); tdma advance], fn counting modulo the hyperframe 2715648. *)
 From Coq Require Import ZArith List Permutation Sorted.
-From OBB Require Import Gen.FwSchedConst Model.TdmaSched Proofs.TdmaSchedSpec Proofs.TdmaSchedSortP Proofs.TdmaSchedP Proofs.TdmaSchedRefP Proofs.TdmaSchedHistP Proofs.TdmaSchedOriginP Proofs.TdmaSchedSpawnP.
+From OBB Require Import Gen.FwSchedConst Gen.FwGsmtimeConst Model.TdmaSched Model.SchedGsmtime Proofs.TdmaSchedSpec Proofs.TdmaSchedSortP Proofs.TdmaSchedP Proofs.TdmaSchedRefP Proofs.TdmaSchedHistP Proofs.TdmaSchedOriginP Proofs.TdmaSchedSpawnP Proofs.SchedGsmtimeP.
 Import ListNotations.
 Open Scope Z_scope.
 
@@ -269,3 +279,158 @@ Theorem c08_sp_held_runs_on_time : forall (rcf : item -> Z) (s2 : sched) (N : Z)
     bucket_due s4 0 = [].
 Proof. exact held_runs_on_time. Qed.
 Print Assumptions c08_sp_held_runs_on_time.
+
+(* ================= GSM-time one-shot events (sched_gsmtime.c) on top of the TDMA scheduler ================= *)
+
+Theorem c08_gsm_constants :
+  c_GSMTIME_NEVENTS = 16 /\ c_SCHEDULE_AHEAD = 2 /\ c_SCHEDULE_LATENCY = 1 /\ c_EBUSY = 16 /\ c_GSM_MAX_FN = 2715648 /\
+  c_GSMTIME_FN_BITS = 32 /\ c_GSMTIME_FN_SIGNED = 0 /\ c_GSMTIME_P3_BITS = 16.
+Proof. exact gsm_consts_ok. Qed.
+Print Assumptions c08_gsm_constants.
+
+(* invariants, every history (requests in any frame order, any execute arguments, resets, TDMA operations): the active list is sorted by
+   fn and every one of the 16 slots is on exactly one of the two lists exactly once; they hold after sched_gsmtime_init *)
+Theorem c08_gsm_invariants :
+  (StronglySorted (fun a b => e_fn a <= e_fn b) (g_act gs_init) /\ Permutation (map e_slot (g_act gs_init) ++ g_inact gs_init) (seq 0 16)) /\
+  forall (ops : list gop) (gs : gstate),
+    StronglySorted (fun a b => e_fn a <= e_fn b) (g_act gs) /\ Permutation (map e_slot (g_act gs) ++ g_inact gs) (seq 0 16) ->
+    StronglySorted (fun a b => e_fn a <= e_fn b) (g_act (fst (gs_run gs ops))) /\
+    Permutation (map e_slot (g_act (fst (gs_run gs ops))) ++ g_inact (fst (gs_run gs ops))) (seq 0 16).
+Proof. exact (conj gs_init_ok gs_run_ok). Qed.
+Print Assumptions c08_gsm_invariants.
+
+(* the two schedulers decompose: in a combined history that ends without crash the event scheduler evolves on its own (gs_run), the
+   events each sched_gsmtime_execute handed over are those of gs_run, and the TDMA scheduler went through run_sp of the expanded
+   history - so every theorem above about run_sp / tdma_schedule_set speaks about the TDMA side of combined histories *)
+Theorem c08_gsm_projection : forall (rcf : item -> Z) (ops : list gop) (ts : sched) (gs : gstate) (obs : list gobs) (ts' : sched) (gs' : gstate),
+  g_run rcf ts gs ops = (obs, GFOk ts' gs') ->
+  gs' = fst (gs_run gs ops) /\ qlog obs = map snd (snd (gs_run gs ops)) /\
+  exists os, run_sp rcf ts (expand gs ops) = (os, FOk ts').
+Proof. exact projection. Qed.
+Print Assumptions c08_gsm_projection.
+
+(* the loop of sched_gsmtime_execute as written (gexec_walk, with the TDMA scheduler threaded through) is the pure walk plus the
+   tdma_schedule_set calls; freed slots go to the head of the inactive list one after the other *)
+Theorem c08_gsm_walk : forall (off tgt : Z) (l : list gev) (ts : sched) (inact : list nat),
+  gexec_walk tgt off l ts inact =
+    match hand_over off ts (snd (gwalk tgt l)) with
+    | Ok (ts', fired) => Ok (fst (gwalk tgt l), ts', rev (map e_slot (snd (gwalk tgt l))) ++ inact, fired)
+    | OOB => OOB
+    | NullCall => NullCall
+    end.
+Proof. exact walk_split. Qed.
+Print Assumptions c08_gsm_walk.
+
+(* on a SORTED list the early `break` loses nothing: exactly the events with fn = target are handed over, in list order, all others
+   stay in order.  (On an unsorted list this is false - the seeded llist_add variant - which is why sortedness is an invariant above.) *)
+Theorem c08_gsm_execute_sorted : forall (tgt : Z) (l : list gev), StronglySorted (fun a b => e_fn a <= e_fn b) l ->
+  gwalk tgt l = (filter (fun e => negb (e_fn e =? tgt)) l, filter (fun e => e_fn e =? tgt) l).
+Proof. exact gwalk_sorted. Qed.
+Print Assumptions c08_gsm_execute_sorted.
+
+(* never otherwise, any list: whatever sched_gsmtime_execute(fn) hands over has fn_event = (fn + 2) mod 2^32, and it only moves events:
+   kept ++ handed over is a permutation of what was pending *)
+Theorem c08_gsm_only_due : forall (tgt : Z) (l : list gev),
+  Forall (fun e => e_fn e = tgt) (snd (gwalk tgt l)) /\ Permutation (fst (gwalk tgt l) ++ snd (gwalk tgt l)) l.
+Proof. exact (fun tgt l => conj (gwalk_fired_due tgt l) (gwalk_perm tgt l)). Qed.
+Print Assumptions c08_gsm_only_due.
+
+(* sorted insert: the new event goes in front of the first pending event with a HIGHER fn, else to the end: equal fns keep request order *)
+Theorem c08_gsm_sorted_insert : forall (e : gev) (l : list gev), exists l1 l2, l = l1 ++ l2 /\ ins_sorted e l = l1 ++ e :: l2 /\
+  Forall (fun c => e_fn c <= e_fn e) l1 /\ match l2 with [] => True | c :: _ => e_fn e < e_fn c end.
+Proof. exact ins_sorted_split. Qed.
+Print Assumptions c08_gsm_sorted_insert.
+
+(* capacity: with 16 events pending sched_gsmtime answers -EBUSY = -16 and the state is IDENTICAL; with fewer it answers 0, takes the
+   FIRST free slot of the inactive list and inserts the event as c08_gsm_sorted_insert says *)
+Theorem c08_gsm_ebusy : forall (gs : gstate) (si : list item) (fn p3 : Z),
+  Permutation (map e_slot (g_act gs) ++ g_inact gs) (seq 0 16) ->
+  (length (g_act gs) = 16%nat -> sched_gsmtime gs si fn p3 = (gs, -16)) /\
+  ((length (g_act gs) < 16)%nat -> exists s rest, g_inact gs = s :: rest /\
+     sched_gsmtime gs si fn p3 = ({| g_act := ins_sorted {| e_slot := s; e_si := si; e_fn := fn; e_p3 := p3 |} (g_act gs); g_inact := rest |}, 0)).
+Proof. exact (fun gs si fn p3 H => conj (ebusy_untouched gs si fn p3 H) (accepted_when_free gs si fn p3 H)). Qed.
+Print Assumptions c08_gsm_ebusy.
+
+(* reset: no event is pending afterwards, all 16 slots are free, the invariants hold *)
+Theorem c08_gsm_reset : forall (gs : gstate), gs_ok gs ->
+  g_act (sched_gsmtime_reset gs) = [] /\ gs_ok (sched_gsmtime_reset gs) /\ Permutation (g_inact (sched_gsmtime_reset gs)) (seq 0 16).
+Proof. exact reset_spec. Qed.
+Print Assumptions c08_gsm_reset.
+
+(* exactly once, in frame F - 2.  Any state with a free slot (s = the first), an event requested for frame F, 2 <= F < 2^32; then ANY
+   operations [mid] (further requests below, above, equal to F; TDMA operations) without sched_gsmtime_reset in which every
+   sched_gsmtime_execute(fn) has 0 <= fn and fn + 2 < F - the admissible window: the request comes no later than the interrupt of frame
+   F - 2 and the frame numbers passed in between are below F - 2 (consecutive fn, fn + 1, ... as l1_sync passes them, within one hyperframe):
+   the request is accepted; none of those executes hands slot s over; the event is still pending; sched_gsmtime_execute(F - 2) hands it over
+   - slot s exactly once among the events handed over, all of which are events for frame F -; afterwards it is no longer pending and slot s
+   is free again (so no later execute can hand it over) *)
+Theorem c08_gsm_exactly_once_on_time : forall (gs : gstate) (s : nat) (rest : list nat) (si : list item) (F p3 : Z) (mid : list gop),
+  gs_ok gs -> g_inact gs = s :: rest -> 2 <= F < 4294967296 ->
+  Forall (fun fn => 0 <= fn /\ fn + 2 < F) (exec_fns mid) -> ~ In GReset mid ->
+  let e := {| e_slot := s; e_si := si; e_fn := F; e_p3 := p3 |} in
+  let gs2 := fst (gs_run gs (GReq si F p3 :: mid)) in
+  let W := snd (gwalk (gexec_target (F - 2)) (g_act gs2)) in
+  sched_gsmtime gs si F p3 = (fst (gs_step gs (GReq si F p3)), 0) /\
+  (forall fn fired, In (fn, fired) (snd (gs_run gs (GReq si F p3 :: mid))) -> ~ In s (map e_slot fired)) /\
+  gs_ok gs2 /\ In e (g_act gs2) /\
+  In e W /\ count_occ Nat.eq_dec (map e_slot W) s = 1%nat /\ Forall (fun x => e_fn x = F) W /\
+  ~ In e (g_act (fst (gs_step gs2 (GExec (F - 2))))) /\ In s (g_inact (fst (gs_step gs2 (GExec (F - 2))))).
+Proof. exact on_time. Qed.
+Print Assumptions c08_gsm_exactly_once_on_time.
+
+(* what the hand-over is for the TDMA scheduler: e the only pending event for its frame, sched_gsmtime_execute(fn) with fn + 2 = e's frame
+   is exactly tdma_schedule_set(1, si, p3) (c08_set_offsets, c08_set_never_overwrites apply); its result is dropped by the code *)
+Theorem c08_gsm_handover : forall (ts : sched) (gs : gstate) (e : gev) (fn : Z),
+  gs_ok gs -> In e (g_act gs) -> gexec_target fn = e_fn e -> (forall x, In x (g_act gs) -> e_fn x = e_fn e -> x = e) ->
+  sched_gsmtime_execute ts gs fn =
+    match tdma_schedule_set ts 1 (e_si e) (e_p3 e) with
+    | Ok (ts', rc) => Ok (ts', fst (gs_step gs (GExec fn)), 1, [(e, rc)])
+    | OOB => OOB
+    | NullCall => NullCall
+    end.
+Proof. exact handover_single. Qed.
+Print Assumptions c08_gsm_handover.
+
+(* composition: the items of the event run in frame F - 1 + k.  e pending for frame F, the only one; its set is END_SET-terminated with
+   fewer than 24 frames, holds no callback 16, and fits (tdma_schedule_set answers the number of frames).  Then the item at position idx of
+   frame k of the set sits in slot (items already due then) + idx of the TDMA frame 1 + k ahead, and after ANY further combined history
+   [tail] whose TDMA view has exactly 1 + k advances (the advance of frame F - 2 and k more frame interrupts), no reset and no execute after
+   the last advance, the next tdma_sched_execute runs that slot exactly once (sorted entry items, then appended ones) and empties the frame *)
+Theorem c08_gsm_event_items_on_time : forall (rcf : item -> Z) (ts : sched) (gs : gstate) (e : gev) (fn : Z) (plan : list (Z * item))
+    (ts' : sched) (k : Z) (idx : nat) (it : item) (tail : list gop),
+  wf ts -> cbs_ok ts -> all_st (fun x => i_cb x <> 16) ts -> (forall x, 0 <= rcf x) ->
+  gs_ok gs -> In e (g_act gs) -> gexec_target fn = e_fn e -> (forall x, In x (g_act gs) -> e_fn x = e_fn e -> x = e) ->
+  set_plan 0 (e_si e) (e_p3 e) = Some plan -> 1 + set_nframes (e_si e) < 25 -> Forall (fun x => i_cb x <> 16) (e_si e) ->
+  tdma_schedule_set ts 1 (e_si e) (e_p3 e) = Ok (ts', set_nframes (e_si e)) ->
+  0 <= k -> 1 + k < 25 -> nth_error (plan_frame plan k) idx = Some it ->
+  let gs' := fst (gs_step gs (GExec fn)) in
+  let mid := expand gs' tail in
+  Forall op_ok mid -> Forall (all_op (fun x => i_cb x <> 16)) mid -> advances mid = 1 + k -> ~ In OReset mid ->
+  (forall a b, mid = a ++ OExecute :: b -> advances a < 1 + k) ->
+  sched_gsmtime_execute ts gs fn = Ok (ts', gs', 1, [(e, set_nframes (e_si e))]) /\
+  exists os s3 s4 lg extra,
+    run_sp rcf ts' mid = (os, FOk s3) /\
+    nth_error (bucket_due s3 0) (length (bucket_due ts (1 + k)) + idx)%nat = Some it /\
+    tdma_sched_execute_sp rcf s3 = SXOk s4 lg (Z.of_nat (length (bucket_due s3 0) + length extra)) /\
+    calls lg = exec_order (bucket_due s3 0) ++ extra /\ Forall (fun x => 2 <= i_cb x <= 9) extra /\
+    count_occ Nat.eq_dec (slot_order (bucket_due s3 0)) (length (bucket_due ts (1 + k)) + idx)%nat = 1%nat /\
+    bucket_due s4 0 = [].
+Proof. exact event_items_on_time. Qed.
+Print Assumptions c08_gsm_event_items_on_time.
+
+(* REFUTED across the hyperframe wrap: sched_gsmtime_execute compares with fn + 2 unreduced, l1_sync passes frame numbers below 2715648,
+   so an event requested for frame 0 or 1 (prim_rach.c / prim_freq.c reduce the frame number modulo 2715648 themselves) is NEVER handed
+   over; witness: frame 2715640, request for frame 0 = 8 frames ahead: 40 frame interrupts hand nothing over and run nothing, the event
+   stays pending and keeps its slot; the same request for frame 2 runs in interrupt 9 (frame 1) *)
+Theorem c08_gsm_frame01_refuted :
+  (forall fn l e, 0 <= fn < 2715648 -> In e (snd (gwalk (gexec_target fn) l)) -> e_fn e <> 0 /\ e_fn e <> 1) /\
+  (match g_run ex_rcf (init 7) gs_init (GReq ex_set_b 0 77 :: frames 40 2715640) with
+   | (obs, GFOk ts gs) => (ran 0 obs, length (qlog obs), length (concat (qlog obs)), stored ts, map e_fn (g_act gs), length (g_inact gs))
+   | _ => ([], O, O, -1, [], O)
+   end = ([], 40%nat, 0%nat, 0, [0], 15%nat)) /\
+  (match g_run ex_rcf (init 7) gs_init (GReq ex_set_b 2 77 :: frames 40 2715640) with
+   | (obs, GFOk ts gs) => (ran 0 obs, map e_fn (g_act gs), length (g_inact gs))
+   | _ => ([], [], O)
+   end = ([(9, [ex_item 3 3 33 77 0])], [], 16%nat)).
+Proof. exact frame01_refuted. Qed.
+Print Assumptions c08_gsm_frame01_refuted.
